@@ -19,7 +19,7 @@ YOUR TASK: make ONE small, realistic source change to the crate (in src/) that B
   (b) the existing test suite still passes completely: `cargo test --workspace --no-fail-fast --offline` in /tmp/seed_{pid} must report the same passes as before your change (run it before and after).
 The change should look like a plausible mistake or 'optimisation' a maintainer could make (an off-by-one, a dropped rounding, a wrong comparison, a missed case, a reordered pair of statements, two sites that each look fine alone...), NOT a blatant sabotage, and it must need something SPECIFIC to manifest: a particular multi-step sequence of operations, an unusual size/alignment/capacity, a particular minimum alignment, a fault (the global allocator refusing a request) or panic at a particular point, etc. Ordinary simple use (allocate a few values, read them back) should still work, so that the bug is not exposed at once.
 
-Then write a DEMONSTRATION: a small Rust integration test file (put it at /tmp/seed_{pid}/tests/seed_demo.rs; it may use only the crate's public API, std, and if needed the optional features) that FAILS (assertion failure, crash, or sanitizer-free observable misbehaviour) with your change and PASSES without it. Verify both directions yourself: run it with the change applied, then `git stash` (or otherwise remove only the src/ change), run it again to see it pass, and restore the change. Note: tests/seed_demo.rs is a new test target; Cargo.toml declares tests explicitly only for try_alloc, other files in tests/ are auto-discovered; if your demo needs optional features, say exactly which command runs it.
+Then write a DEMONSTRATION: a small Rust integration test file (put it at /tmp/seed_{pid}/tests/seed_demo.rs; it may use only the crate's public API, std, and if needed the optional features) that FAILS (assertion failure, crash, or sanitizer-free observable misbehaviour) with your change and PASSES without it. Verify both directions yourself: run it with the change applied, then remove only the src/ change (`git apply -R` of your saved patch; never `git stash`), run it again to see it pass, and restore the change. Note: tests/seed_demo.rs is a new test target; Cargo.toml declares tests explicitly only for try_alloc, other files in tests/ are auto-discovered; if your demo needs optional features, say exactly which command runs it.
 
 DELIVERABLES, all under /tmp/seed_out/{pid}/ :
   - patch.diff : output of `git -C /tmp/seed_{pid} diff -- src/` (ONLY the src/ change, not the demo)
